@@ -1,5 +1,6 @@
 """Writer-side layout obligations (R-LAYOUT against spec/bbi_format.py)."""
 from __future__ import annotations
+import re
 from ..astq import Node, up, strip, strip_cast, calls, loc
 from ..rules.layout import (emissions, flat_emits, Emit, Group, Marker, check_emit_seq, origin, int_value)
 from ..spec import bbi_format as F
@@ -129,8 +130,9 @@ def slot_params(ctx):
                 ems = flat_emits(r["loop"].parts)
                 if ems and ems[0].arg is not None:
                     o = origin(fn, ems[0].arg)
-                    if o.startswith("iter(p"):
-                        out["zoomHeaders"] = int(o[6:o.index(")")])
+                    mo = re.match(r"iter\(p(\d+)\b", o)
+                    if mo:
+                        out["zoomHeaders"] = int(mo.group(1))
         for r in regions:
             if r["kind"] == "Start" and r["arg"] is not None and not up(strip_cast(r["arg"])).isdigit() and r["emits"]:
                 o = origin(fn, r["emits"][0].arg) if r["emits"][0].arg is not None else ""
